@@ -641,12 +641,6 @@ type refSess struct {
 	exp, lease int64
 	dead       bool // dropped by a failed resumption or invalidated
 	present    bool // still stored (expired entries stay until swept)
-	// the expired entry was deleted lazily by LookupNonExpired (id lookup, explicit-SessionID
-	// handshake), which leaves its command mappings behind until the next InvalidateExpired
-	orphaned bool
-	// triples whose stale mapping (orphaned as above, never swept) leads to this re-registered id:
-	// known finding route-orphaned-by-lazy-expiry
-	orphanRoutes map[[3]string]bool
 }
 
 type refMap struct {
@@ -662,9 +656,6 @@ func (r *refMap) live(id string) bool {
 func (r *refMap) drop(id string) {
 	if s := r.sess[id]; s != nil {
 		s.dead, s.present = true, false
-		if s.orphaned {
-			return // Invalidate of an id that is no longer stored removes nothing: the orphans stay
-		}
 	}
 	for k, v := range r.routes {
 		if v == id {
@@ -674,15 +665,6 @@ func (r *refMap) drop(id string) {
 }
 
 type failure struct{ key, desc string }
-
-// orphanKey: a wrong route that is a mapping orphaned by LookupNonExpired's lazy delete, never
-// swept, and revived by a re-registration of the same id is the known finding; anything else keeps its key.
-func orphanKey(rs *refSess, tr [3]string, key string) string {
-	if rs != nil && rs.orphanRoutes[tr] {
-		return "route-orphaned-by-lazy-expiry"
-	}
-	return key
-}
 
 // ---- running one history ------------------------------------------------------
 
@@ -729,20 +711,25 @@ func runHistory(h history) runOut {
 			case rs == nil:
 				fail("lookup-returns-unrelated-session", "%s: LookupByCommand(%q,%q,%s) returns a session that was never established", what, tr[0], w.unalias(tr[1]), tr[2])
 			case rs.tag != tr[0]:
-				fail(orphanKey(rs, tr, "lookup-returns-unrelated-session"), "%s: LookupByCommand(tag %q, %s, cmd %s) returns %s, established under tag %q", what, tr[0], w.unalias(tr[1]), tr[2], w.sidName(id), rs.tag)
+				fail("lookup-returns-unrelated-session", "%s: LookupByCommand(tag %q, %s, cmd %s) returns %s, established under tag %q", what, tr[0], w.unalias(tr[1]), tr[2], w.sidName(id), rs.tag)
 			case rs.addr != tr[1]:
-				fail(orphanKey(rs, tr, "lookup-returns-unrelated-session"), "%s: LookupByCommand(%q, addr %s, %s) returns %s, established to %s", what, tr[0], w.unalias(tr[1]), tr[2], w.sidName(id), w.unalias(rs.addr))
+				fail("lookup-returns-unrelated-session", "%s: LookupByCommand(%q, addr %s, %s) returns %s, established to %s", what, tr[0], w.unalias(tr[1]), tr[2], w.sidName(id), w.unalias(rs.addr))
 			case !rs.cmds[tr[2]]:
-				fail(orphanKey(rs, tr, "lookup-returns-unrelated-session"), "%s: LookupByCommand(%q,%s, cmd %s) returns %s whose ValidCommands do not include it", what, tr[0], w.unalias(tr[1]), tr[2], w.sidName(id))
+				fail("lookup-returns-unrelated-session", "%s: LookupByCommand(%q,%s, cmd %s) returns %s whose ValidCommands do not include it", what, tr[0], w.unalias(tr[1]), tr[2], w.sidName(id))
 			case !ref.live(id):
 				fail("dead-session-still-reachable", "%s: LookupByCommand(%q,%s,%s) returns %s which is expired, dropped or invalidated", what, tr[0], w.unalias(tr[1]), tr[2], w.sidName(id))
 			case ref.routes[tr] != id:
-				fail(orphanKey(rs, tr, "lookup-returns-unrelated-session"), "%s: LookupByCommand(%q,%s,%s) returns %s, the reference map has %s", what, tr[0], w.unalias(tr[1]), tr[2], w.sidName(id), w.sidName(ref.routes[tr]))
+				fail("lookup-returns-unrelated-session", "%s: LookupByCommand(%q,%s,%s) returns %s, the reference map has %s", what, tr[0], w.unalias(tr[1]), tr[2], w.sidName(id), w.sidName(ref.routes[tr]))
 			}
 		}
 		for id, found := range s.byid {
 			if found && !ref.live(id) {
 				fail("dead-session-still-reachable", "%s: Lookup(%s) finds a session that is expired, dropped or invalidated", what, w.sidName(id))
+			}
+		}
+		for k, id := range s.cmdmap {
+			if _, ok := s.sessions[id]; !ok {
+				fail("orphan-mapping", "%s: command mapping %s -> %s points to no stored session", what, w.unalias(k), w.sidName(id))
 			}
 		}
 		if len(s.keyNeqID) > 0 {
@@ -774,15 +761,15 @@ func runHistory(h history) runOut {
 					fail("rode-wrong-session", "%s: explicit SessionID %s but the request names %s (live=%v)", what, w.sidName(w.idOfOrd(e.Explicit)), w.sidName(sv.sid), ref.live(sv.sid))
 				}
 			case rs.tag != e.Tag:
-				fail(orphanKey(rs, tr, "rode-wrong-session"), "%s: handshake with tag %q rides %s, established under tag %q", what, e.Tag, w.sidName(sv.sid), rs.tag)
+				fail("rode-wrong-session", "%s: handshake with tag %q rides %s, established under tag %q", what, e.Tag, w.sidName(sv.sid), rs.tag)
 			case rs.addr != addr:
-				fail(orphanKey(rs, tr, "rode-wrong-session"), "%s: handshake to %s rides %s, established to %s", what, w.unalias(addr), w.sidName(sv.sid), w.unalias(rs.addr))
+				fail("rode-wrong-session", "%s: handshake to %s rides %s, established to %s", what, w.unalias(addr), w.sidName(sv.sid), w.unalias(rs.addr))
 			case e.Cmd < 0 || !rs.cmds[cmdStr]:
-				fail(orphanKey(rs, tr, "rode-wrong-session"), "%s: handshake for command %s rides %s whose ValidCommands do not include it", what, cmdStr, w.sidName(sv.sid))
+				fail("rode-wrong-session", "%s: handshake for command %s rides %s whose ValidCommands do not include it", what, cmdStr, w.sidName(sv.sid))
 			case !ref.live(sv.sid):
 				fail("rode-dead-session", "%s: handshake rides %s which is expired, dropped or invalidated", what, w.sidName(sv.sid))
 			case ref.routes[tr] != sv.sid:
-				fail(orphanKey(rs, tr, "rode-wrong-session"), "%s: handshake rides %s, the reference map has %s", what, w.sidName(sv.sid), w.sidName(ref.routes[tr]))
+				fail("rode-wrong-session", "%s: handshake rides %s, the reference map has %s", what, w.sidName(sv.sid), w.sidName(ref.routes[tr]))
 			}
 			switch sv.reply {
 			case "authorized":
@@ -855,8 +842,8 @@ func runHistory(h history) runOut {
 		switch e.Kind {
 		case "hs":
 			if e.Explicit != 0 {
-				if rs := ref.sess[w.idOfOrd(e.Explicit)]; rs != nil && rs.present && ref.now > rs.exp {
-					rs.present, rs.orphaned = false, true // ClientHandshake's LookupNonExpired deletes it lazily
+				if id := w.idOfOrd(e.Explicit); ref.sess[id] != nil && ref.sess[id].present && ref.now > ref.sess[id].exp {
+					ref.drop(id) // ClientHandshake's LookupNonExpired removes the expired entry and every route to it
 				}
 			}
 			sv, r := w.handshake(e)
@@ -987,12 +974,6 @@ func runHistory(h history) runOut {
 					ref.drop(id)
 				}
 			}
-			for id, rs := range ref.sess {
-				if rs.orphaned { // the sweep also removes mappings whose session is gone
-					rs.orphaned = false
-					ref.drop(id)
-				}
-			}
 			if n != want {
 				fail("invalidate-expired-count", "%s: InvalidateExpired removed %d sessions, %d were expired", what, n, want)
 			}
@@ -1018,16 +999,20 @@ func runHistory(h history) runOut {
 			en.SetInherited(true)
 			w.cache.Store(en)
 			w.cache.MapCommand(e.Tag, addr, cmdStr, id)
-			nrs := &refSess{id: id, tag: e.Tag, addr: addr, cmds: map[string]bool{cmdStr: true}, exp: ref.now + sessDuration, lease: sessLease, present: true, orphanRoutes: map[[3]string]bool{}}
+			nrs := &refSess{id: id, tag: e.Tag, addr: addr, cmds: map[string]bool{cmdStr: true}, exp: ref.now + sessDuration, lease: sessLease, present: true}
 			for tr, v := range ref.routes {
-				if v == id { // only a mapping orphaned by a lazy expiry and never swept can still be here
-					nrs.orphanRoutes[tr] = true
-					delete(ref.routes, tr)
+				if v == id { // every earlier way the id stopped being stored removed its routes
+					fail("stale-route-in-reference", "%s: internal: the reference map still routes %v to %s", what, tr, w.sidName(id))
 				}
 			}
 			ref.sess[id] = nrs
 			ref.routes[[3]string{e.Tag, addr, cmdStr}] = id
-			delete(nrs.orphanRoutes, [3]string{e.Tag, addr, cmdStr})
+			// no command mapping may point to an id that is not stored, so nothing old can lead here
+			for k, v := range w.cache.VerifCommandMap() {
+				if v == id && k != realKey(e.Tag, addr, cmdStr) {
+					fail("stale-route-revived", "%s: re-registered %s is reachable through the old mapping %s", what, w.sidName(id), w.unalias(k))
+				}
+			}
 			out.counts["import-previously-used-id"]++
 			term = fmt.Sprintf("XImport n%d n%d n%d n%d", w.sidN(id), idx(tags, e.Tag), e.Addr, cmdIdx(e.Cmd))
 		case "lne":
@@ -1038,7 +1023,12 @@ func runHistory(h history) runOut {
 				fail("dead-session-still-reachable", "%s: LookupNonExpired(%s) finds a session that is expired, dropped or invalidated", what, w.sidName(id))
 			}
 			if rs := ref.sess[id]; rs != nil && rs.present && ref.now > rs.exp {
-				rs.present, rs.orphaned = false, true
+				ref.drop(id) // the expired entry goes, and every route to it
+				for k, v := range w.cache.VerifCommandMap() {
+					if v == id {
+						fail("mappings-left-after-expiry", "%s: mapping %s -> %s survives the removal of the expired session by LookupNonExpired", what, w.unalias(k), w.sidName(id))
+					}
+				}
 			}
 			term = fmt.Sprintf("XLookupNonExpired n%d %s", w.sidN(id), core.Bool(found))
 		default:
@@ -1244,7 +1234,7 @@ func gen(c *core.Ctx) error {
 		{H("tagA", 0, 421), {Kind: "tick", Dt: 3000}, {Kind: "lne", K: 1}, {Kind: "invalexp"}, {Kind: "import", K: 1, Tag: "tagB", Addr: 1, Cmd: 9}, H("tagA", 0, 421), H("tagB", 1, 9), H("tagA", 0, 60007)},
 		{H("", 0, 421), {Kind: "tick", Dt: 3000}, {Kind: "hs", Tag: "tagB", Addr: 1, Cmd: 9, Mode: "ok", Via: "peername", Explicit: 1}, {Kind: "invalexp"}, {Kind: "import", K: 1, Tag: "tagA", Addr: 0, Cmd: 60007}, H("", 0, 421), H("", 0, 60007), H("tagA", 0, 60007)},
 		{H("tagA", 0, 421), H("tagB", 1, 60007), {Kind: "tick", Dt: 3000}, {Kind: "lne", K: 1}, {Kind: "invalexp"}, {Kind: "invalexp"}, {Kind: "import", K: 1, Tag: "", Addr: 0, Cmd: 421}, H("tagA", 0, 60007), H("", 0, 421)},
-		// the same without a sweep in between (known finding route-orphaned-by-lazy-expiry)
+		// the same without a sweep in between (fixed by c4d0e8b: LookupNonExpired removes the mappings itself)
 		{H("tagA", 0, 421), {Kind: "tick", Dt: 3000}, {Kind: "lne", K: 1}, {Kind: "import", K: 1, Tag: "tagB", Addr: 1, Cmd: 9}, H("tagA", 0, 421), H("tagB", 1, 9)},
 		{H("", 1, 9), {Kind: "tick", Dt: 1500}, H("", 1, 9), {Kind: "tick", Dt: 500}, H("", 1, 421), {Kind: "tick", Dt: 500}, H("", 1, 9)},
 		{H("tagB", 0, 9), {Kind: "tick", Dt: 3000}, {Kind: "lne", K: 1}, {Kind: "inval", K: 1}, H("tagB", 0, 9), {Kind: "invalexp"}},
